@@ -98,7 +98,15 @@ impl StrGen {
     pub fn wellformed(&self, rng: &mut Rng, depth: usize) -> String {
         let g = Gen { names: &self.names, max_depth: depth, max_arity: 4, placeholders: true, set_bias: false };
         let nd = g.narsese(rng, depth);
-        clip(self.fmt.e().format_narsese(&nd.build()))
+        // (the workload generators must survive a formatter that panics: the panic is kept for the check
+        // that owns formatting - C12 reports it - and the text comes from the harness's own renderer)
+        match crate::guard::observe(|| self.fmt.e().format_narsese(&nd.build())) {
+            crate::guard::Obs::Ret(s) => clip(s),
+            crate::guard::Obs::Panic(p) => {
+                note_formatter_panic(self.fmt, &nd, &p);
+                clip(crate::surface::tokens(self.fmt, &nd, &mut crate::surface::Sugar::default()).join(" "))
+            }
+        }
     }
 
     pub fn number(&self, rng: &mut Rng) -> String {
@@ -370,6 +378,21 @@ pub fn random_unicode_char(rng: &mut Rng) -> char {
         1 => char::from_u32(0x20 + rng.below(0x5f) as u32).unwrap(),
         _ => *rng.pick(POOL),
     }
+}
+
+static FORMATTER_PANICS: std::sync::Mutex<Vec<(String, String, String)>> = std::sync::Mutex::new(Vec::new());
+
+fn note_formatter_panic(f: Fmt, nd: &ND, p: &str) {
+    if let Ok(mut v) = FORMATTER_PANICS.lock() {
+        if v.len() < 8 {
+            v.push((f.name().to_string(), nd.canon(), p.to_string()));
+        }
+    }
+}
+
+/// formatter panics met while *generating* workload strings: (format, value, panic)
+pub fn formatter_panics() -> Vec<(String, String, String)> {
+    FORMATTER_PANICS.lock().map(|v| v.clone()).unwrap_or_default()
 }
 
 pub fn random_unicode(rng: &mut Rng) -> String {
